@@ -64,33 +64,66 @@ func parseRace(blk string) (raceReport, bool) {
 	if len(sides) < 2 {
 		return raceReport{}, false
 	}
-	a, aRepo := sideKey(sides[0])
-	b, bRepo := sideKey(sides[1])
-	if !aRepo && !bRepo {
+	a, aStack := sideKey(sides[0])
+	b, bStack := sideKey(sides[1])
+	if !aStack && !bStack {
 		return raceReport{Signature: "harness-internal", Text: blk}, true
+	}
+	if aStack != bStack {
+		// one side is the application (harness) touching memory, the other the stack. Only
+		// "the stack writes what the application reads" is about data handed to the application;
+		// the other direction (the harness hands bytes / data to the stack from another task
+		// without synchronisation the detector can see) is an artefact of the harness
+		st, app := sides[0], sides[1]
+		if !aStack {
+			st, app = sides[1], sides[0]
+		}
+		if !(strings.Contains(st.kind, "write") && strings.Contains(app.kind, "read")) {
+			return raceReport{Signature: "harness-internal", Text: blk}, true
+		}
 	}
 	keys := []string{a, b}
 	sort.Strings(keys)
 	return raceReport{Signature: "race/" + keys[0] + "|" + keys[1], Text: strings.TrimSpace(blk)}, true
 }
 
-// sideKey names one access: the innermost frame that belongs to spine-go, or "app" when the
-// access is made by harness (application) code, possibly through the standard library.
+// sideKey names one access. An access belongs to the stack if a frame of package spine is on
+// its call stack (then it is named after the innermost spine-go frame, which may be in package
+// model); otherwise it is the application (the harness, possibly inside encoding/json or
+// inside a pure helper of package model that the harness calls itself).
 func sideKey(s raceSide) (string, bool) {
+	// the innermost frame that is neither runtime nor standard library decides who is acting:
+	// harness code (also when the stack called it, e.g. the transport writer) is the application
+	for _, f := range s.frames {
+		if strings.Contains(f, "verifsim/") {
+			return "app", false
+		}
+		if strings.Contains(f, "github.com/enbility/spine-go/") {
+			break
+		}
+	}
+	stack := false
+	for _, f := range s.frames {
+		if strings.Contains(f, "github.com/enbility/spine-go/spine.") {
+			stack = true
+		}
+	}
+	if !stack {
+		return "app", false
+	}
 	for _, f := range s.frames {
 		if strings.Contains(f, "github.com/enbility/spine-go/") {
 			short := f[strings.Index(f, "github.com/enbility/spine-go/")+len("github.com/enbility/spine-go/"):]
-			// strip generic instantiation noise
 			if i := strings.Index(short, "[go.shape"); i > 0 {
+				short = short[:i]
+			}
+			if i := strings.Index(short, "[...]"); i > 0 {
 				short = short[:i]
 			}
 			return short, true
 		}
-		if strings.Contains(f, "verifsim/") {
-			return "app", false
-		}
 	}
-	return "app", false
+	return "stack", true
 }
 
 func raceRelevant(prop string, rr raceReport) bool {
